@@ -257,6 +257,10 @@ def make_groups(r: random.Random, qa: list, sk0: dict) -> list[list[dict]]:
     s = {'asn4': sk0['asn4'], 'addpath': set(fams) if sk0['addpath'] else set(), 'ibgp': sk0['ibgp']}
     gen = [gw.gen_update(r, s, families=fams, rich=0.5)[0] for _ in range(3)]
     groups.append([raw('generated', 2, gen[0]), raw('mutated', 2, gw.mutate(r, gen[1], r.choice([1, 2, 3]))[:4000]), raw('generated', 2, gen[2])])
+    # (14) LAST group, always taken (one item per shard): withdrawals of MP families which travel with other attributes, the
+    # way ExaBGP itself encodes the withdrawal of a labelled / VPN route; decoding takes the MP attribute out of the set
+    src = base_block(duals[1], med)
+    groups.append([upd('mp-unreach6-attrs', src, nlri='none', mp='unreach6'), upd('mp-unreachvpn4-attrs', rich[0], nlri='none', mp='unreachvpn4'), upd('mp-unreach6-attrs', rich[1], nlri='none', mp='unreach6')])
     return groups
 
 
@@ -279,6 +283,9 @@ def materialise(item: dict, sk: dict) -> bytes:
         attrs = rw.enc_mp_unreach(2, 1, [rw.mk_nlri(2, 1, r.choice(V6), pid)], ap) + attrs
     elif mp == 'reach4enh':
         attrs = attrs + rw.enc_mp_reach(1, 1, ['2001:db8::ff'], [rw.mk_nlri(1, 1, r.choice(V4), pid)], ap)
+    elif mp == 'unreachvpn4':
+        n = rw.mk_nlri(1, 128, r.choice(V4), pid, (100,), struct.pack('!HHL', 0, 65000, 1).hex())
+        attrs = rw.enc_mp_unreach(1, 128, [n], ap) + attrs
     elif mp == 'reachvpn4':
         n = rw.mk_nlri(1, 128, r.choice(V4), pid, (100,), struct.pack('!HHL', 0, 65000, 1).hex())
         attrs = attrs + rw.enc_mp_reach(1, 128, ['192.0.2.1'], [n], ap)
@@ -309,12 +316,12 @@ def make_universe(r: random.Random, qa: list, shard: int, nsessions: int, nbodie
         chosen.append(twin(other, 1 + (shard // 2 + 1 + shard % 3) % 4))
     groups = make_groups(r, qa, KINDS[chosen[0]])
     # group 0 (dual AS_PATH) always; the others in rotation over the shards so that every group is taken by several shards
-    order = list(range(1, len(groups)))
+    order = list(range(1, len(groups) - 1))
     random.Random(977).shuffle(order)
     if flipped == 4:
         order.remove(2)
         order.insert((shard * 2) % (len(order) + 1), 2)  # the AIGP group meets the sessions that differ in the AIGP option
-    items = list(groups[0][:per_group])
+    items = list(groups[0][:per_group]) + [groups[-1][shard % len(groups[-1])]]
     g = shard * 2
     while len(items) < nbodies:
         grp = groups[order[g % len(order)]]
@@ -343,6 +350,8 @@ def make_sequence(r: random.Random, uni: dict, length: int) -> list:
             kind = r.choice(chosen)
         # the message: the same pool item as the previous one half of the time (identical attribute bytes on another session)
         item = prev_item if prev_item is not None and r.random() < 0.5 else r.choice(items)
+        if prev_item is not None and r.random() < 0.12:
+            item, kind = prev_item, prev_kind  # the very same message again on the very same session, back to back
         u = by_item[item][kind]
         steps.append({'k': u['k'], 't': u['t'], 'b': u['b'], 'tag': u['tag']})
         prev_item, prev_kind = item, kind
